@@ -92,6 +92,10 @@ def exotic_cases():
         'tuple0': '#[derive(Educe)]\n{A}pub struct Ty();\n',
         'named0': '#[derive(Educe)]\n{A}pub struct Ty {{}}\n',
         'visibility': '#[derive(Educe)]\n{A}pub(crate) struct Ty {{ pub(crate) a: u8, b: u16, pub(super) c: u8 }}\n',
+        # differently typed fields whose names differ by (the tail of) a binding prefix or equal a template local: a clash cannot type-check
+        'prefix-names': '#[derive(Educe)]\n{A}pub struct Ty {{ pub x: u8, pub o_x: &\'static str, pub s_x: u16, pub d_x: bool, pub v_x: char, pub _x: i8, pub __x: i16, pub _s_x: i32, pub _o_x: i64 }}\n',
+        'prefix-names-enum': '#[derive(Educe)]\n{A}pub enum Ty {{ {VD}A {{ x: u8, o_x: &\'static str, s_x: u16, d_x: bool, v_x: char, _x: i8, __x: i16, _s_x: i32, _o_x: i64 }}, B(u8, &\'static str) }}\n',
+        'local-names-enum': '#[derive(Educe)]\n{A}pub enum Ty {{ {VD}A {{ f: u8, builder: &\'static str, arg: u16, state: bool, other: char, source: i8, educe__f: i16, data: i32, size: i64 }}, B {{ _0: u8, _1: &\'static str, __0: u16, __1: bool }} }}\n',
         'doc-attrs': '/// docs\n#[derive(Educe)]\n#[allow(dead_code)]\n{A}pub struct Ty {{ /// field doc\n #[allow(unused)] pub a: u8 }}\n',
     }
     sets = {'all': allt, 'Debug': '#[educe(Debug)]\n', 'Clone': '#[educe(Clone)]\n', 'CopyClone': '#[educe(Copy, Clone)]\n', 'PartialEq': '#[educe(PartialEq, Eq)]\n',
@@ -147,7 +151,7 @@ def exotic_cases():
                 else:
                     out.append(Case('C01|genbound|%s|%s|%s' % (gk, sk, bk), src, {'shape': gk, 'traits': sk, 'bound': b}, expect='accept', run=False, depth=2))
     # several Into targets, each taken from its own field through a conversion that exists for that pair only
-    conv = [('String', "&'static str"), ('u16', 'u8'), ('u64', 'u32'), ('W', 'u16'), ('Vec<u8>', "&'static [u8; 2]"), ('f64', 'f32')]
+    conv = [('String', "&\'static str"), ('u16', 'u8'), ('u64', 'u32'), ('W', 'u16'), ('Vec<u8>', "&'static [u8; 2]"), ('f64', 'f32')]
     for r in (2, 3, 4):
         for sub in itertools.combinations(conv, r):
             for perm in (sub, sub[::-1]):
